@@ -264,7 +264,7 @@ def one_case(rec, seedt):
         ops = []
         for _ in range(int(rng.integers(3, 11))):
             op = str(rng.choice(["read", "read", "copy", "deepcopy", "pickle", "dataframe",
-                                 "measure"]))
+                                 "measure", "len-repr"]))
             ops.append(op)
             try:
                 if op == "read":
@@ -282,6 +282,9 @@ def one_case(rec, seedt):
                     obj.to_dataframe()
                 elif op == "measure":
                     obj.get_measurement(float(obj.f[0]), "Gxx")
+                elif op == "len-repr":
+                    if len(obj) != len(obj.f) or "SpectrumResult" not in repr(obj):
+                        rec.violation("len-repr", f"{tag}len()/repr() inconsistent with the result")
             except BaseException as e:
                 rec.violation(f"operation-raises:{op}", f"{tag}after {ops[:-1]}: {op} raised "
                                                         f"{type(e).__name__}: {str(e)[:200]}")
